@@ -30,6 +30,7 @@ type SpecEnv struct {
 	Pkg        *types.Package
 	Fn         *ssa.Function
 	CalleeView bool // evaluating a callee's contract at a call site: locals of the caller are not visible
+	LoopHeader *ssa.BasicBlock // set while evaluating a loop invariant
 	macroDepth int
 }
 
@@ -280,7 +281,19 @@ func (x *Exec) evalIdent(env *SpecEnv, name string) SVal {
 	}
 	// local variable of the function under verification (invariants)
 	if !env.CalleeView {
-		if a := x.localByName(name); a != nil {
+		a := x.localByName(name)
+		if (name == "rangeindex" || name == "$rangeindex") && env.LoopHeader != nil {
+			// the hidden index of the range loop whose invariant is being evaluated
+			for _, in := range env.LoopHeader.Instrs {
+				if u, ok := in.(*ssa.UnOp); ok {
+					if al, ok := u.X.(*ssa.Alloc); ok && al.Comment == "rangeindex" {
+						a = al
+						break
+					}
+				}
+			}
+		}
+		if a != nil {
 			et := a.Type().(*types.Pointer).Elem()
 			if isStruct(et) {
 				if v, ok := env.S.env[a]; ok {
@@ -731,6 +744,11 @@ func (e *Engine) ensureDef(x *Exec, sf *SpecFuncInfo) {
 		specFail("recursive spec function %s must not read the heap", sf.Name)
 	}
 	sf.defText = fmt.Sprintf("(define-fun-rec sf$%s (%s) %s %s)", sf.Name, strings.Join(sig, " "), sf.ResSort, body.T.String())
+	var ps []*smt.Term
+	for _, p := range sf.Params {
+		ps = append(ps, vars[p.Name].T)
+	}
+	sf.def = &smt.DefFun{Name: "sf$" + sf.Name, Params: ps, Res: sf.ResSort, Body: body.T}
 }
 
 // ---------- assigns targets ----------
@@ -874,16 +892,43 @@ func (x *Exec) havocTargetIn(s *State, env *SpecEnv, a spec.Expr, tag string) {
 	}
 }
 
-// contractHeaps lists the heap entries a contract's assigns clause may touch (static over-approximation).
-func (x *Exec) contractHeaps(c *Contract, call *ssa.CallCommon) (heaps []string, all bool) {
+// contractHeaps lists the locations a contract's assigns clause may touch at a call site.
+// With st == nil the result is a static over-approximation (whole heap entries). With a state, parameters
+// whose argument values are already defined (outside the loop being cut) are bound to their real terms, so
+// targets that only depend on them are returned keyed; targets depending on loop-defined arguments are whole.
+func (x *Exec) contractHeaps(c *Contract, call *ssa.CallCommon, cur *State, li *loopInfo) (targets []Target, all bool) {
 	st := &State{heap: map[string]*smt.Term{}, cells: map[*ssa.Alloc]Val{}, env: map[ssa.Value]Val{}}
+	if cur != nil {
+		st = cur.clone()
+	}
 	vars := map[string]SVal{}
+	dummies := map[*smt.Term]bool{}
+	var argVals []ssa.Value
+	if call != nil {
+		argVals = callArgs(call)
+	}
 	for i, p := range c.Params {
 		pt := p.Type()
 		if call != nil && call.IsInvoke() && i == 0 {
 			pt = call.Value.Type()
 		}
-		vars[c.ParamNm[i]] = SVal{T: smt.Fresh("dummy", x.E.SortOf(pt)), GT: pt}
+		var t *smt.Term
+		if cur != nil && i < len(argVals) {
+			if v, ok := cur.env[argVals[i]]; ok && !x.definedInLoop(argVals[i], li) {
+				if tv, ok := v.(TermVal); ok {
+					t = tv.T
+				}
+			} else if cst, ok := argVals[i].(*ssa.Const); ok {
+				if tv, ok := x.constVal(cst).(TermVal); ok {
+					t = tv.T
+				}
+			}
+		}
+		if t == nil {
+			t = smt.Fresh("dummy", x.E.SortOf(pt))
+			dummies[t] = true
+		}
+		vars[c.ParamNm[i]] = SVal{T: t, GT: pt}
 	}
 	env := &SpecEnv{X: x, S: st, Vars: vars, Pkg: c.SpecPkg, CalleeView: true, Old: map[string]*smt.Term{}}
 	for _, a := range c.Assigns {
@@ -897,14 +942,75 @@ func (x *Exec) contractHeaps(c *Contract, call *ssa.CallCommon) (heaps []string,
 					panic(r)
 				}
 			}()
+			if cl, ok := a.(*spec.Call); ok {
+				if id, ok := cl.Fun.(*spec.Ident); ok && id.Name == "post" {
+					return
+				}
+			}
 			ts, al := x.resolveTargets(env, a)
 			if al {
 				all = true
 			}
 			for _, t := range ts {
-				heaps = append(heaps, t.Heap)
+				if t.Key != nil && (cur == nil || mentions(t.Key, dummies) || x.dependsOnLoopState(t.Key, li)) {
+					t.Key = nil
+				}
+				targets = append(targets, t)
 			}
 		}()
 	}
 	return
+}
+
+func (x *Exec) definedInLoop(v ssa.Value, li *loopInfo) bool {
+	if li == nil {
+		return false
+	}
+	if in, ok := v.(ssa.Instruction); ok && in.Block() != nil {
+		return li.body[in.Block()]
+	}
+	return false
+}
+
+// dependsOnLoopState: a key that reads heap entries the loop may change is not stable across iterations.
+func (x *Exec) dependsOnLoopState(k *smt.Term, li *loopInfo) bool {
+	found := false
+	seen := map[int]bool{}
+	var walk func(t *smt.Term)
+	walk = func(t *smt.Term) {
+		if found || seen[t.ID()] {
+			return
+		}
+		seen[t.ID()] = true
+		if t.Op == "select" || t.Op == "store" {
+			found = true // conservative: any heap read in the key
+			return
+		}
+		for _, a := range t.Args {
+			walk(a)
+		}
+	}
+	walk(k)
+	return found
+}
+
+func mentions(t *smt.Term, set map[*smt.Term]bool) bool {
+	seen := map[int]bool{}
+	var walk func(t *smt.Term) bool
+	walk = func(t *smt.Term) bool {
+		if set[t] {
+			return true
+		}
+		if seen[t.ID()] {
+			return false
+		}
+		seen[t.ID()] = true
+		for _, a := range t.Args {
+			if walk(a) {
+				return true
+			}
+		}
+		return false
+	}
+	return walk(t)
 }
